@@ -55,6 +55,9 @@ mod stream;
 #[cfg(not(feature = "i-implement-a-third-party-backend-and-opt-into-breaking-changes"))]
 mod webtransport;
 
+#[cfg(h3_verif)]
+pub mod verif;
+
 #[cfg(test)]
 mod tests;
 #[cfg(test)]
